@@ -55,6 +55,12 @@ def cases(ctx):
     yield {"kind": "knee"}
     yield {"kind": "anchors"}
     yield {"kind": "mono"}
+    # the documented `dtype` argument of the conversions, every function x requested type on every run
+    for fn in ("rgb2xyz", "roundtrip", "rgb2grey"):
+        for odt in ("float32", "float64", "uint8", "int32", "uint16"):
+            sh = [rng.randint(1, 3), rng.randint(1, 4), 3]
+            yield {"kind": "conv", "shape": sh, "dtype": rng.choice(["uint8", "float64"]), "layout": rng.choice(LAYOUTS), "fn": fn,
+                   "vals": [rng.choice([0, 1, 10, 128, 254, 255, rng.randint(0, 255)]) for _ in range(gen.size(sh))], "odtype": odt}
     n = 250 if ctx.tier == "quick" else 3000
     for i in range(n):
         kind = rng.choice(["stretch", "stretch", "stretch_rgb", "conv"])
@@ -67,8 +73,12 @@ def cases(ctx):
                 vals = [rng.choice([0, 1, 1]) for _ in vals]
                 if not any(vals):
                     vals[0] = 1
-            yield {"kind": "conv", "shape": sh, "dtype": dt, "vals": vals, "layout": rng.choice(LAYOUTS),
-                   "fn": rng.choice(["rgb2xyz", "rgb2lab", "rgb2grey", "rgb2sepia", "roundtrip"])}
+            c = {"kind": "conv", "shape": sh, "dtype": dt, "vals": vals, "layout": rng.choice(LAYOUTS),
+                 "fn": rng.choice(["rgb2xyz", "rgb2lab", "rgb2grey", "rgb2sepia", "roundtrip"])}
+            if c["fn"] in ("rgb2xyz", "roundtrip", "rgb2grey") and rng.random() < 0.4:
+                # the documented `dtype` argument ("what dtype to return"): the same values, delivered in that type
+                c["odtype"] = rng.choice(["float32", "float64", "uint8", "int32", "uint16"])
+            yield c
         else:
             dt = rng.choice(gen.INT_DTYPES[1:] + ["float32", "float64", "bool"])
             shape = gen.rand_shape(rng) if kind == "stretch" else [rng.randint(1, 4), rng.randint(1, 4), 3]
@@ -169,6 +179,24 @@ def run_case(ctx, case):
                 return Result(False, True, {"why": "sepia dtype"})
         else:
             got, want = colors.xyz2rgb(colors.rgb2xyz(a)), rgbf
+        if case.get("odtype"):
+            odt = np.dtype(case["odtype"])
+            plain = got
+            if fn == "rgb2xyz":
+                got = colors.rgb2xyz(a, dtype=odt)
+            elif fn == "rgb2grey":
+                got = colors.rgb2grey(a, dtype=odt)
+            else:
+                got = colors.xyz2rgb(colors.rgb2xyz(a), dtype=odt)
+            if got.dtype != odt or got.shape != plain.shape:
+                return Result(False, True, {"why": "%s(dtype=%s) returned dtype %s" % (fn, odt, got.dtype)})
+            # the values of the call without dtype, in the requested type: exact conversion for floats, within one unit for
+            # integers (truncation and rounding are both accepted)
+            d = np.abs(got.astype(np.float64) - plain.astype(np.float64))
+            lim = 1.0 if odt.kind in "ui" else (1e-4 * max(1.0, float(np.abs(plain).max())) if odt == np.float32 else 1e-12)
+            if float(d.max()) > lim + (0.1 if fn == "roundtrip" else 0):
+                return Result(False, True, {"why": "%s(dtype=%s) differs from the call without dtype by %g" % (fn, odt, float(d.max()))})
+            got = plain
         if not np.array_equal(a, keep):
             return Result(False, True, {"why": "input modified"})
         tol = 0.1 if fn == "roundtrip" else (1e-4 if case["dtype"] == "float32" else 1e-7)   # float32 inputs are processed in float32
